@@ -37,15 +37,15 @@ func hIndexedBatchAt(nCommitted, nBatch int, earlierView bool) {
 		var err error
 		switch w.kind {
 		case hKSet:
-			err = b.Set([]byte{w.key}, []byte{w.val}, nil)
+			err = b.Set(hKeyBytes(w.key), []byte{w.val}, nil)
 		case hKDel:
-			err = b.Delete([]byte{w.key}, nil)
+			err = b.Delete(hKeyBytes(w.key), nil)
 		case hKMerge:
-			err = b.Merge([]byte{w.key}, []byte{w.val}, nil)
+			err = b.Merge(hKeyBytes(w.key), []byte{w.val}, nil)
 		case hKSDel:
-			err = b.SingleDelete([]byte{w.key}, nil)
+			err = b.SingleDelete(hKeyBytes(w.key), nil)
 		case hKRDel:
-			err = b.DeleteRange([]byte{w.key}, []byte{w.end}, nil)
+			err = b.DeleteRange(hKeyBytes(w.key), hKeyBytes(w.end), nil)
 		}
 		sym.Assert(err == nil, "batch-op")
 	}
@@ -109,5 +109,13 @@ func hIndexedBatchAt(nCommitted, nBatch int, earlierView bool) {
 func VerifHarness_C05_IndexedBatch() { hIndexedBatch(1, 2) }
 
 func VerifHarness_C05_BatchSnapshot() { hIndexedBatchAt(1, 2, true) }
+
+// keys that share their first 8 bytes: the batch index cannot tell them apart by abbreviated
+// key and must fall back to full comparisons; three operations, so that an insert can land
+// between or before existing entries of the same abbreviation
+func VerifHarness_C05_LongSharedPrefix() {
+	hKeyPrefix = []byte("account-")
+	hIndexedBatch(0, 3)
+}
 
 func VerifHarness_C05_IndexedBatch3_Thorough() { hIndexedBatch(2, 3) }
